@@ -660,6 +660,10 @@ def check_C07(ctx):
                   "is compared with the real one-shot lexing of S (leading run, empty span at None, resume position) and with the number of items the reference calls determined by the prefix "
                   "(n_p == n_det; with look-around n_det(k-1) <= n_p <= n_det(k)); plus random chunk schedules following the book's protocol. "
                   "Non-trivial: (input, split) pairs where the partial lexer stopped before the end of the one-shot stream."]
+    ctx.rules += ["L-level: for every accepted generated definition the product exploration (all inputs) evaluates, at every reachable tuple at which a partial lexer's buffer could end, the commit condition of the "
+                  "generated code (graph state without any byte or end-of-input transition) against reference determinedness: a commit of an undetermined item, or a determined item (not a skip) that is still "
+                  "withheld (with look-around: still withheld one byte later) is a violation."]
+    stage_l(ctx)
     cfgs = ["tc", "sm"] if ctx.tier == "quick" else list(CONFIGS)
     cdir, meta, tags = ensure_corpus(ctx, "mixed", cfgs)
     for cfg in cfgs:
@@ -1007,8 +1011,18 @@ def run_cli(ctx, cmd, src_path, timeout=300):
             raise Inconclusive(f"watchdog ({timeout}s) fired for: {' '.join(cmd)[:200]}")
 
 
-def cli_history(ctx, exe, cdir, k, rng, steps):
-    """Random write/check/format/corrupt/CRLF/delete history against a file model."""
+DIRECTED_CLI_HISTORIES = [
+    ["write", "crlf", "check", "check", "write", "check"],
+    ["write", "append_newlines", "check", "write", "check"],
+    ["write_fmt", "crlf", "check_fmt", "check", "write_fmt", "check_fmt"],
+    ["check", "write", "corrupt", "check", "write", "check", "delete", "check"],
+    ["write", "write_fmt", "check", "check_fmt", "write", "check_fmt", "check"],
+    ["write", "cr_only", "check", "strip_final_newline", "check", "write", "crlf", "write", "check"],
+]
+
+
+def cli_history(ctx, exe, cdir, k, rng, steps, script=None):
+    """Random (or scripted) write/check/format/corrupt/CRLF/delete history against a file model."""
     inp = os.path.join(cdir, f"in_{k}.rs")
     outp = os.path.join(cdir, f"hist_{k}.rs")
     if os.path.exists(outp):
@@ -1020,11 +1034,16 @@ def cli_history(ctx, exe, cdir, k, rng, steps):
     want_fmt = open(fmt).read() if os.path.exists(fmt) else None
     if want_plain is None:
         return 0
-    norm = lambda s: s.splitlines()
+    def norm(s):
+        # "ignoring line endings": a line ends in LF or CRLF, a final line ending is optional (lone CR is not a line ending)
+        ls = s.split("\n")
+        if ls and ls[-1] == "":
+            ls.pop()
+        return [l[:-1] if l.endswith("\r") else l for l in ls]
     hist = []
     n = 0
-    for _ in range(steps):
-        op = rng.choice(["write", "check", "check", "write_fmt", "check_fmt", "corrupt", "crlf", "delete", "append_newlines"])
+    for step in range(len(script) if script else steps):
+        op = script[step] if script else rng.choice(["write", "check", "check", "write_fmt", "check_fmt", "corrupt", "crlf", "delete", "append_newlines", "cr_only", "strip_final_newline"])
         if op in ("write_fmt", "check_fmt") and want_fmt is None:
             continue
         hist.append(op)
@@ -1062,6 +1081,11 @@ def cli_history(ctx, exe, cdir, k, rng, steps):
             open(outp, "wb").write(before.replace(b"\r\n", b"\n").replace(b"\n", b"\r\n"))
         elif op == "append_newlines" and before is not None:
             open(outp, "wb").write(before + b"\n\n")
+        elif op == "cr_only" and before is not None:
+            # classic-Mac line endings: str::lines() does not split at a lone CR, so this is a different text
+            open(outp, "wb").write(before.replace(b"\r\n", b"\n").replace(b"\n", b"\r"))
+        elif op == "strip_final_newline" and before is not None:
+            open(outp, "wb").write(before.rstrip(b"\r\n"))
         elif op == "delete" and before is not None:
             os.remove(outp)
     return n
@@ -1119,6 +1143,10 @@ def check_C17(ctx):
     hist_n = 12 if ctx.tier == "quick" else 120
     for k in range(min(hist_n, n)):
         steps += cli_history(ctx, exe, cdir, k, rng, 14)
+    # scripted histories: every state of the file (absent, exact, equal modulo line endings, different) meets both --check forms
+    for k in range(min(4 if ctx.tier == "quick" else 24, n)):
+        for script in DIRECTED_CLI_HISTORIES:
+            steps += cli_history(ctx, exe, cdir, k, rng, 0, script=script)
     ctx.coverage["evaluations"] += steps
     ctx.add_stage("cli", {"inputs": n, "outputs_checked_by_oracle": res["checked"], "history_steps": steps, "histories": min(hist_n, n)})
     ctx.assumptions += ["syn 2 parses Rust as rustc does for these enum items", "the model's expected file contents are the CLI's own outputs, which the oracle validates separately"]
